@@ -108,8 +108,13 @@ def exec_op(rt, wl, labs, op):
         if op.get("wcol") and isinstance(w, list):
             import numpy as np
             w = np.array(w).reshape(-1, 1)  # e.g. plate.wells[0:3, [1]]
+        v = dec(op["volumes"])
+        if op.get("vform") and isinstance(v, list):
+            # per-tip volumes as a tuple / ndarray (e.g. a column of a volume matrix); the library refuses both
+            import numpy as np
+            v = tuple(v) if op["vform"] == "tuple" else np.array(v, dtype=float)
         args = dict(labware=lab, wells=w, labware_position=tuple(op["pos"]), tips=_tip(rt, op["tips"]),
-                    volumes=dec(op["volumes"]), liquid_class=op.get("lc", ""), arm=op.get("arm", 0),
+                    volumes=v, liquid_class=op.get("lc", ""), arm=op.get("arm", 0),
                     label=op.get("label"))
         if k == "evo_dispense":
             args["compositions"] = _comps(op)
@@ -120,6 +125,11 @@ def exec_op(rt, wl, labs, op):
                            cleaner_location=tuple(op["cleaner"]), **(op.get("kw") or {}))
     if k == "comment":
         return wl.comment(op["text"])
+    if k == "bulk_comment":
+        # a long protocol: n numbered comments, each padded to a given length
+        for j in range(op["n"]):
+            wl.comment(f"{op['text']}{j}".ljust(op.get("width", 0), "."))
+        return None
     if k == "wash":
         return wl.wash(op["scheme"]) if "scheme" in op else wl.wash()
     if k == "flush":
